@@ -1494,7 +1494,7 @@ def run(tier, seed, only=None):
                "tol-abs*(1+-1e-6), (1+-1e-2), far below/above on every observation kind, tol-abs in {10,1000,1e5}; "
                "every input with the four algorithms; class = (network kind, defect kind, tol-abs, algorithm) + "
                "(rule, network kind, observation kind, tol-abs, side, algorithm) + (deletion, ...)")
-    n = tier_n(tier, 100, 2500)
+    n = tier_n(tier, 300, 2500)
     all_idx = [i for i in range(n) if only is None or i == only]
     CH = 48      # networks per batch: results of a batch are evaluated and dropped (bounded memory and disk)
     for c0 in range(0, len(all_idx), CH):
